@@ -29,7 +29,7 @@ Qed.
 Lemma six_nz : (r1 + r1) * (r1 + (r1 + r1)) <> r0.
 Proof. apply mul_nz; [exact two_nz|]. intro H. apply three_nz. rewrite <- H. ring. Qed.
 
-Ltac go := unfold apply_stencil, entry, coord, fe_stencil, fd_stencil, chalf, c8, c6, c4, c3, c2, c1, K11, K22, K12, two;
+Ltac go := unfold apply_stencil, entry, coord, fe_stencil, fd_stencil, fe_stencil_of, fd_stencil_of, chalf, c8, c6, c4, c3, c2, c1, K11, K22, K12, two;
            cbn [fold_left map nth fst snd zero one add sub mul div opp o]; field; repeat split; auto using six_nz.
 
 Theorem fe_const : apply_stencil o (fe_stencil o eps C S) (fun _ _ => r1) = r0. Proof. go. Qed.
